@@ -289,11 +289,20 @@ def render_cohdl(spec, cname):
             args.append(f"std.Reset({', '.join(a)})")
         if ctx.get('step_cond'):
             args.append(f"step_cond=lambda: {ctx['step_cond']}")
+        route = ctx.get('on_reset_route', 'kw')
         if ctx.get('on_reset'):
             L += render_function(False, ctx['name'] + '_on_reset', '', ctx['on_reset'], False, 2)
-            if ctx.get('on_reset_route', 'kw') == 'kw':
+            if route in ('kw', 'ctxobj'):
                 args.append(f"on_reset={ctx['name']}_on_reset")
-        L.append(f"        @std.sequential({', '.join(args)})")
+        if ctx.get('on_reset') and route == 'ctxobj':
+            # every public route of registering on_reset actions must work
+            L.append(f"        ctx_{ctx['name']} = std.SequentialContext({', '.join(args)})")
+            L.append(f"        @ctx_{ctx['name']}")
+        elif ctx.get('on_reset') and route == 'call':
+            L.append(f"        ctx_{ctx['name']} = std.SequentialContext({', '.join(args)})")
+            L.append(f"        @ctx_{ctx['name']}(on_reset={ctx['name']}_on_reset)")
+        else:
+            L.append(f"        @std.sequential({', '.join(args)})")
         L += render_function(False, ctx['name'], '', ctx['body'], ctx['kind'] == 'coro', 2)
     return '\n'.join(L) + '\n'
 
@@ -619,8 +628,14 @@ def run_design(spec, rnd, explore_budget=400, random_clocks=300, max_depth=40, w
         cnt['accepted'] += 1
         out['text'] = comp.text
         out['comp'] = comp
+        zero = {n: 0 for n, k, w in spec['inputs']}
+        # reset inputs start inactive
+        for ctx in spec['ctxs']:
+            rs = ctx.get('reset')
+            if rs and rs.get('active_low'):
+                zero[rs['sig']] = 1
         try:
-            sim = comp.sim()
+            sim = comp.sim(init=dict(zero, clk=0))
         except Unsupported as u:
             out['status'] = f"vsim-unsupported: {u}"
             cnt['vsim_unsupported'] += 1
@@ -639,12 +654,6 @@ def run_design(spec, rnd, explore_budget=400, random_clocks=300, max_depth=40, w
             return out
         obs = observables(spec, sim)
         inputs = input_space(spec, rnd=rnd)
-        zero = {n: 0 for n, k, w in spec['inputs']}
-        # reset inputs start inactive
-        for ctx in spec['ctxs']:
-            rs = ctx.get('reset')
-            if rs and rs.get('active_low'):
-                zero[rs['sig']] = 1
         for n, v in zero.items():
             sim.set(n, v)
         sim.sched[sim.top['sig']['clk']] = 0
